@@ -13,7 +13,7 @@ def det(path):
             out.append((m.group(1), int(m.group(2)), labs))
     return out
 rows=[]
-for name in sorted(os.listdir('/verif/seeded')):
+for name in sorted(n for n in os.listdir('/verif/seeded') if os.path.isdir('/verif/seeded/'+n)):
     d='/verif/seeded/'+name
     meta=json.load(open(d+'/meta.json'))
     ds=det(d+'/detection.txt')
